@@ -7,6 +7,7 @@ raw write (also a short write) or raw close of the part file, and the environmen
 destination" just before any call.
 """
 import errno
+import stat
 import json
 import os
 import shutil
@@ -74,6 +75,10 @@ def body_plan(kind):
         return [('write', 'partial\n'), ('raise', 'SystemExit'), ('write', 'never\n')]
     if kind == 'kbint':
         return [('write', 'partial\n'), ('raise', 'KeyboardInterrupt')]
+    if kind == 'same_as_old':       # the new content happens to equal what the destination holds already
+        return [('write', OLD.decode('ascii'))]
+    if kind == 'same_as_other':     # ... or what another process writes to the destination meanwhile
+        return [('write', OTHER.decode('ascii'))]
     if kind == 'closes_raises':     # the body closes the part file itself (nested `with f:`), then fails
         return [('write', 'partial\n'), ('close',), ('raise',)]
     raise AssertionError(kind)
@@ -124,6 +129,18 @@ def configs(tier):
             for text in (False, True):
                 for body in ('small', 'large', 'raises'):
                     out.append(dict(base, old_mode=m, umask=umask, text_mode=text, body=body))
+    # new content identical to the old one (the requested permissions must still be applied, the save still be a save) and
+    # identical to what another process creates meanwhile (overwrite=False must still refuse)
+    for perms in (None, 0o600, 0o664):
+        for text in (False, True):
+            out.append(dict(base, file_perms=perms, text_mode=text, body='same_as_old'))
+            out.append(dict(base, file_perms=perms, text_mode=text, body='same_as_other', dest_present=False, overwrite=False))
+            out.append(dict(base, file_perms=perms, text_mode=text, body='same_as_other', dest_present=False))
+    # "overwrite=False and the destination exists at entry": it also exists when it is a symbolic link, dangling or not
+    for kind in ('symlink_dangling', 'symlink_to_file'):
+        for text in (False, True):
+            for body in ('small', 'none'):
+                out.append(dict(base, overwrite=False, dest_kind=kind, text_mode=text, body=body))
     # one AtomicSaver object used for two saves in a row (the destination is chmod-ed to 0o611 in between): the second
     # save is the one explored
     for perms in (None, 0o600):
@@ -152,7 +169,14 @@ class Scenario:
         os.makedirs(self.d)
         old = os.umask(0)
         try:
-            if self.cfg['dest_present']:
+            if self.cfg.get('dest_kind'):
+                target = os.path.join(self.d, 'target-of-the-link')
+                if self.cfg['dest_kind'] == 'symlink_to_file':
+                    with open(target, 'wb') as f:
+                        f.write(OLD)
+                    os.chmod(target, OLD_MODE)
+                os.symlink('target-of-the-link', self.dest)
+            elif self.cfg['dest_present']:
                 with open(self.dest, 'wb') as f:
                     f.write(OLD)
                 os.chmod(self.dest, self.cfg.get('old_mode', OLD_MODE))
@@ -219,9 +243,11 @@ class Scenario:
                     os.chmod(self.dest, REUSE_MODE)
                 except Exception as e:      # only possible on a retry after a failed run (e.g. a part file was left)
                     self.before = (stat_of(self.dest), stat_of(self.part))
+                    self.others_before = sorted(n for n in os.listdir(self.d) if n not in ('dest.txt', 'dest.txt.part'))
                     return e
                 env.closed = False
             self.before = (stat_of(self.dest), stat_of(self.part))
+            self.others_before = sorted(n for n in os.listdir(self.d) if n not in ('dest.txt', 'dest.txt.part'))
             try:
                 with saver as f:
                     for st in self.plan:
@@ -257,6 +283,8 @@ def stat_of(path):
         st = os.lstat(path)
     except OSError:
         return None
+    if stat.S_ISLNK(st.st_mode):
+        return (st.st_mode & 0o7777, b'symlink -> ' + os.readlink(path).encode(), st.st_ino)
     with open(path, 'rb') as f:
         data = f.read()
     return (st.st_mode & 0o7777, data, st.st_ino)
@@ -316,6 +344,9 @@ def judge(sc, env, exc, before, retry=True):
                 out.append(('permissions of the completed file', sorted(oct(w) for w in want), oct(dest1[0])))
         if part1 is not None:
             out.append(('part file left after a completed save', None, part1[1][:30]))
+        now = sorted(n for n in os.listdir(sc.d) if n not in ('dest.txt', 'dest.txt.part'))
+        if now != sc.others_before:
+            out.append(('other files of the directory changed', sc.others_before, now))
         return out
     # the caller saw an exception
     closes = any(st[0] == 'close' for st in sc.plan)
@@ -344,6 +375,10 @@ def judge(sc, env, exc, before, retry=True):
         out.append(('part file left behind after a failed save', 'no part file', part1[1][:30]))
     if cfg['rm_part_on_exc'] and mine and published and not unlink_failed:
         out.append(('part file left behind after publication', 'no part file', part1[1][:30]))
+    # nothing but the destination and the part file may appear or disappear in the directory
+    now = sorted(n for n in os.listdir(sc.d) if n not in ('dest.txt', 'dest.txt.part'))
+    if now != sc.others_before:
+        out.append(('other files of the directory changed', sc.others_before, now))
     # the process umask is what "the umask default" of later saves refers to: a save must leave it as it found it
     cur = os.umask(0)
     os.umask(cur)
